@@ -42,6 +42,9 @@ type DenseInt64Matrix struct {
 /* constructors
  * -------------------------------------------------------------------------- */
 func NewDenseInt64Matrix(values []int64, rows, cols int) *DenseInt64Matrix {
+  if rows < 0 || cols < 0 || len(values) != rows*cols {
+    panic("NewMatrix(): Matrix dimension does not fit input values!")
+  }
   m := DenseInt64Matrix{}
   m.values = values
   m.rows = rows
